@@ -113,6 +113,30 @@ func c16Gen(c c16Case) (pairs []kv, absent [][]byte) {
 		}
 		// duplicates change table size => recompute not needed for validity; absent keys share table/start region
 		absent = absentSame
+	case "fullhash":
+		// pairs of different keys with the same full 32-bit hash (birthday search over the repository's hash),
+		// written interleaved so that each key's later values sit behind the other key's records
+		seen := map[uint32]string{}
+		var pairsFound [][2]string
+		for i := 0; len(pairsFound) < c.N && i < 3000000; i++ {
+			k := fmt.Sprintf("fh%d-%d", c.Seed, i)
+			h := spooky.Hash32([]byte(k))
+			if o, ok := seen[h]; ok && o != k {
+				pairsFound = append(pairsFound, [2]string{o, k})
+				delete(seen, h)
+				continue
+			}
+			seen[h] = k
+		}
+		for i, p := range pairsFound {
+			a, b := []byte(p[0]), []byte(p[1])
+			pairs = append(pairs, kv{a, []byte(fmt.Sprintf("A1-%d", i))}, kv{b, []byte(fmt.Sprintf("B1-%d", i))},
+				kv{a, []byte(fmt.Sprintf("A2-%d", i))}, kv{b, []byte(fmt.Sprintf("B2-%d", i))})
+		}
+		for i := 0; i < 50; i++ {
+			pairs = append(pairs, kv{[]byte(fmt.Sprintf("noise%d", i)), c16RandBytes(rng, 5)})
+		}
+		absent = append(absent, []byte("fh-absent"))
 	case "empty":
 		absent = append(absent, []byte{}, []byte("a"))
 	case "sizes":
@@ -284,6 +308,7 @@ func c16Cases(r *report.Run) []c16Case {
 	for i := 0; i < r.Pick(3, 12); i++ {
 		cs = append(cs, c16Case{"bigvals", 3 + i*4, s + int64(900+i)})
 	}
+	cs = append(cs, c16Case{"fullhash", r.Pick(3, 12), s + 5})
 	if r.Thorough() {
 		cs = append(cs, c16Case{"collide", 300, s + 77}, c16Case{"sizes", 50000, s + 78})
 	}
@@ -291,7 +316,7 @@ func c16Cases(r *report.Run) []c16Case {
 }
 
 func runC16(r *report.Run) {
-	r.SetRule("seeded workloads written with the real cdb.Writer and read back with the real reader: exact sizes 0,1,2,3,255-257,1000; random pair sequences with a small key alphabet (repeated/empty keys, empty values, value lengths around 255/4096/65536); one key with thousands of values; keys crafted with the repository's spooky hash into one table with start slots at the table end (wrap-around probing, plus absent keys hashing into the same region); long keys/values; dump->make from a byte reader and from *os.File. non-trivial = workload with >=2 records and (a key with >=2 values or a file > 4096 bytes); distinct by (kind,n,seed)")
+	r.SetRule("seeded workloads written with the real cdb.Writer and read back with the real reader: exact sizes 0,1,2,3,255-257,1000; random pair sequences with a small key alphabet (repeated/empty keys, empty values, value lengths around 255/4096/65536); one key with thousands of values; keys crafted with the repository's spooky hash into one table with start slots at the table end (wrap-around probing, plus absent keys hashing into the same region); pairs of different keys with the same full 32-bit hash, written interleaved; long keys/values; dump->make from a byte reader and from *os.File. non-trivial = workload with >=2 records and (a key with >=2 values or a file > 4096 bytes); distinct by (kind,n,seed)")
 	r.Assume("model = insertion-ordered list per key kept by the harness")
 	dir := os.Getenv("VERIF_SCRATCH")
 	if dir == "" {
